@@ -68,6 +68,9 @@ pub fn flow(t: usize, vals: &[V], rich: Rich) -> Vec<Letter> {
         u(Some(2), "COGEN", "GASNATURAL", &scale(first, 2, 1)),
         u(Some(2), "COGEN", "BIOMASA", &scale(last, 1, 1)),
     ]));
+    // a second PV field in a system that sorts after the cogenerator (two generators of one source, not contiguous)
+    al.push(Letter::one(p(Some(3), "EL_INSITU", last)));
+    al.push(Letter::one(p(Some(3), "EL_INSITU", mid)));
     // systems with auxiliaries (the only electricity of the building unless other letters add some), outputs, demand
     al.push(Letter::many(vec![u(Some(7), "CAL", "GASNATURAL", last), a(Some(7), first)]));
     al.push(Letter::many(vec![u(Some(8), "ACS", "GASNATURAL", mid), u(Some(8), "CAL", "GASNATURAL", last), o(8, "ACS", mid), o(8, "CAL", first), a(Some(8), mid)]));
@@ -112,6 +115,7 @@ pub fn flow_slots(t: usize, opts: &[Vec<V>], rich: Rich) -> Vec<Vec<Letter>> {
         mk(&|v| Letter::one(u(Some(1), "CAL", "GASNATURAL", v))),
         mk(&|v| Letter::one(u(Some(1), "ACS", "EAMBIENTE", v))),
         mk(&|v| Letter::one(p(Some(1), "EAMBIENTE", v))),
+        mk(&|v| Letter::one(p(Some(3), "EL_INSITU", v))),
     ];
     if rich == Rich::Wide {
         slots.push(mk(&|v| Letter::one(u(Some(0), "NEPB", "EAMBIENTE", v))));
@@ -279,17 +283,38 @@ pub fn combo_slots(n: usize) -> Vec<Vec<Letter>> {
         Letter::many(vec![p(Some(5), "EL_COGEN", &chp_el), u(Some(5), "COGEN", "GASNATURAL", &chp_gas)]),
         Letter::one(u(Some(0), "NEPB", "ELECTRICIDAD", &nepb_el)),
         Letter::many(vec![u(Some(2), "ACS", "ELECTRICIDAD", &hp_el), u(Some(2), "ACS", "EAMBIENTE", &hp_amb)]),
+        // a boiler on a carrier of its own in the system with the highest id (after every production source in id order)
+        Letter::one(u(Some(31), "CAL", "RED1", &red1)),
         Letter::one(p(Some(11), "EL_INSITU", &pv2)),
+        Letter::many(vec![u(Some(7), "ACS", "TERMOSOLAR", &sol_use), p(Some(7), "TERMOSOLAR", &sol_prod)]),
         Letter::many(vec![u(Some(4), "REF", "ELECTRICIDAD", &ref_el), o(4, "REF", &ref_out), a(Some(4), &ref_aux)]),
         Letter::one(u(Some(5), "COGEN", "BIOMASA", &chp_bio)),
         Letter::one(u(Some(3), "CAL", "GASNATURAL", &cal_gas)),
         Letter::many(vec![u(Some(3), "ACS", "GASNATURAL", &acs_gas), o(3, "CAL", &out_cal), o(3, "ACS", &out_acs), a(Some(3), &aux3)]),
         Letter::many(vec![u(Some(0), "NEPB", "EAMBIENTE", &nepb_amb), p(Some(9), "EAMBIENTE", &amb_surplus)]),
-        Letter::many(vec![u(Some(7), "ACS", "TERMOSOLAR", &sol_use), p(Some(7), "TERMOSOLAR", &sol_prod)]),
-        Letter::one(u(Some(6), "CAL", "BIOMASA", &cal_bio)),
-        Letter::one(u(Some(8), "CAL", "RED1", &red1)),
+        Letter::one(u(Some(32), "CAL", "BIOMASA", &cal_bio)),
         Letter::one(u(Some(1), "VEN", "ELECTRICIDAD", &ven)),
         Letter::one(d("ACS", &dem)),
     ];
     all.into_iter().take(n).map(|l| vec![absent.clone(), l]).collect()
+}
+
+/// MAG12: monthly lines that move 1e6 kWh for eleven months and hundredths of a kWh in the last one (or the reverse), so that
+/// what happens in the small month disappears in every annual f32 sum while each per-step identity still has to hold
+pub fn mag12_letters() -> Vec<Letter> {
+    let big = |x: V, last: V| -> Vec<V> { let mut v = vec![x; 11]; v.push(last); v };
+    let m = 100_000_000; // 1e6 kWh in hundredths
+    vec![
+        Letter::one(u(Some(0), "ILU", "ELECTRICIDAD", &big(m, 5))),
+        Letter::one(u(Some(0), "ILU", "ELECTRICIDAD", &big(m, 100))),
+        Letter::one(p(Some(0), "EL_INSITU", &big(m, 30))),
+        Letter::one(p(Some(0), "EL_INSITU", &big(m, 300))),
+        Letter::one(p(Some(0), "EL_INSITU", &big(0, 30))),
+        Letter::one(u(Some(0), "NEPB", "ELECTRICIDAD", &big(0, 10))),
+        Letter::one(u(Some(0), "NEPB", "ELECTRICIDAD", &big(m / 2, 10))),
+        Letter::many(vec![p(Some(2), "EL_COGEN", &big(m / 2, 20)), u(Some(2), "COGEN", "GASNATURAL", &big(m, 50))]),
+        Letter::one(u(Some(1), "ACS", "EAMBIENTE", &big(m, 5))),
+        Letter::one(p(Some(1), "EAMBIENTE", &big(m, 30))),
+        Letter::one(u(Some(1), "CAL", "GASNATURAL", &big(5, m))),
+    ]
 }
